@@ -782,7 +782,7 @@ def add_sum_pow2_m1(
                 it += 1
 
     if len(input_labels) == 2:
-        out.append(add_sum2(circuit, input_labels[0:2]))
+        out.append(add_sum_n_bits(circuit, input_labels[0:2], basis=basis))
         input_labels = input_labels[2:]
         input_labels.append(out[it][0])
 
